@@ -1,41 +1,115 @@
 // queue_replay.cpp -- replays behaviours of spec/Queue/Queue.tla (single client thread, the
 // resolution step merged into its critical section by the path writer) on the real
-// cocls::queue<int> / cocls::queue<void>, comparing the projection of the real object with the
+// cocls::queue<T, Queue, CoroQueue, Lock>, comparing the projection of the real object with the
 // specification's state after every step.
 //
-// header: {"void":bool, "mode":"poll"|"coro"}
+// header: {"void":bool, "item":bool, "mode":"poll"|"coro",
+//          "forms":[...], "shift":n      -- Queue.tla FormSeq / shift: the n-th push uses forms[(n + shift) % len]
+//          "si":bool, "sw":bool          -- Queue.tla SingleItem / SingleWaiter: primitives::single_item_queue as the
+//                                           item container / as the container of the parked pops
+//          "lock":"mutex"|"none"}        -- Lock template parameter (std::mutex | primitives::no_lock)
+// instantiations: T = int | void | Item (a class that records which constructor built it, has an initializer-list
+// constructor -- T{args...} is not T(args...) -- and can throw from any constructor on demand)
 // projection: {"destroyed","fut":[{"st","v"}...],"items":[...],"npop","npush","ret":{"t1":..},"waiters":[ids]}
+//   an item is its identity n (int), 0 (void / no value), or {"a","b","ctor"} (Item)
 #include <cocls/queue.h>
 #include <cocls/async.h>
 #include <cocls/future.h>
 #include "replay_common.h"
 
 #include <deque>
+#include <initializer_list>
 #include <optional>
+#include <stdexcept>
 
 using namespace rp;
+namespace prim = cocls::primitives;
 
 struct TestExc : std::exception {};
+struct CtorThrow {};
 
-template <typename T>
-struct Probe : cocls::queue<T> {
-    using cocls::queue<T>::_queue;
-    using cocls::queue<T>::_awaiters;
+// ---------------------------------------------------------------------------------------------
+// item type.  Records how the ORIGINAL object was built (copies and moves carry the record along; a moved-from
+// object loses its identity), so that what a pop receives can be compared with what a direct T(args...) gives.
+// The initializer-list constructor takes elements that are constructible from int and from Item itself (the
+// shape of json-like / vector<any>-like types): T{n}, T{n, m}, T{x} do not build what T(n), T(n, m), T(x) build.
+// ---------------------------------------------------------------------------------------------
+struct Item;
+struct Wrap {
+    int a;
+    Wrap(int x) : a(x) {}
+    Wrap(const Item &it);
+};
+struct Item {
+    static inline bool armed = false;   // the next constructor to run throws (one shot)
+    static inline int dflt = 0;         // identity handed out by the default constructor
+    int a = 0, b = 0;
+    char ctor = '?';                    // '0' Item(), '1' Item(int), '2' Item(int,int), 'L' initializer_list, 'm' moved-from
+    static void boom() { if (armed) { armed = false; throw CtorThrow(); } }
+    Item() { boom(); a = dflt; ctor = '0'; }
+    explicit Item(int x) { boom(); a = x; ctor = '1'; }
+    Item(int x, int y) { boom(); a = x; b = y; ctor = '2'; }
+    Item(std::initializer_list<Wrap> l) {
+        boom();
+        auto it = l.begin();
+        if (it != l.end()) a = (it++)->a;
+        if (it != l.end()) b = (it++)->a;
+        ctor = 'L';
+    }
+    Item(const Item &o) { boom(); a = o.a; b = o.b; ctor = o.ctor; }
+    Item(Item &&o) { boom(); a = o.a; b = o.b; ctor = o.ctor; o.a = 0; o.b = 0; o.ctor = 'm'; }
+    Item &operator=(const Item &o) { a = o.a; b = o.b; ctor = o.ctor; return *this; }
+    Item &operator=(Item &&o) {
+        if (this != &o) { a = o.a; b = o.b; ctor = o.ctor; o.a = 0; o.b = 0; o.ctor = 'm'; }
+        return *this;
+    }
+    bool is(int xa, int xb, char xc) const { return a == xa && b == xb && ctor == xc; }
+};
+inline Wrap::Wrap(const Item &it) : a(it.a) {}
+
+static J item_json(const Item &x) {
+    J m = J::map();
+    m.set("a", x.a);
+    m.set("b", x.b);
+    m.set("ctor", std::string(1, x.ctor));
+    return m;
+}
+static J item_json(int x) { return J(x); }
+
+// ---------------------------------------------------------------------------------------------
+// read access to the containers of the queue (protected members, reached through derived classes)
+// ---------------------------------------------------------------------------------------------
+template <typename X>
+struct StdPeek : prim::std_queue<X> {
+    static const auto &cont(const prim::std_queue<X> &q) { return q.*(&StdPeek::c); }
+};
+template <typename X>
+struct SinglePeek : prim::single_item_queue<X> {
+    static const std::optional<X> &val(const prim::single_item_queue<X> &q) { return q.*(&SinglePeek::_val); }
+};
+template <typename X, typename F>
+void each(const prim::std_queue<X> &q, F &&f) { for (const X &x : StdPeek<X>::cont(q)) f(x); }
+template <typename X, typename F>
+void each(const prim::single_item_queue<X> &q, F &&f) { const auto &o = SinglePeek<X>::val(q); if (o.has_value()) f(*o); }
+
+template <typename T, template <typename> class Q, template <typename> class CQ, typename Lock>
+struct Probe : cocls::queue<T, Q, CQ, Lock> {
+    using cocls::queue<T, Q, CQ, Lock>::_queue;
+    using cocls::queue<T, Q, CQ, Lock>::_awaiters;
 };
 
-template <typename T>
 struct Rec {
     std::string st = "pending";
-    int v = 0;
+    std::string v = "0";     // canonical json of the value the coroutine received
     bool done = false;
     int resumes = 0;
 };
 
 template <typename T>
-cocls::async<void> consumer(cocls::future<T> &f, Rec<T> &r) {
+cocls::async<void> consumer(cocls::future<T> &f, Rec &r) {
     try {
-        if constexpr (std::is_void_v<T>) { co_await f; r.v = 0; }
-        else r.v = co_await f;
+        if constexpr (std::is_void_v<T>) { co_await f; r.v = "0"; }
+        else { T x = co_await f; r.v = item_json(x).dump(); }
         r.st = "val";
     } catch (const cocls::await_canceled_exception &) {
         r.st = "canceled";
@@ -46,39 +120,31 @@ cocls::async<void> consumer(cocls::future<T> &f, Rec<T> &r) {
     r.done = true;
 }
 
-// an item type whose constructor can throw: a failing push must change nothing (in particular it must not lose a
-// waiting pop)
-struct ItemThrow {};
-struct Item {
-    int v;
-    bool copy_throws = false;
-    Item(int x) : v(x) { if (x < 0) throw ItemThrow(); }
-    Item(const Item &o) : v(o.v) { if (o.copy_throws) throw ItemThrow(); }
-    Item(Item &&o) noexcept : v(o.v) {}
-    Item &operator=(const Item &) = default;
-    Item &operator=(Item &&) = default;
-    operator int() const { return v; }
-};
-
-template <typename T>
+template <typename T, template <typename> class Q, template <typename> class CQ, typename Lock>
 struct World {
-    std::unique_ptr<Probe<T>> q{new Probe<T>()};
+    using queue_t = Probe<T, Q, CQ, Lock>;
+    static constexpr bool is_void = std::is_void_v<T>;
+    static constexpr bool is_obj = std::is_same_v<T, Item>;
+    std::unique_ptr<queue_t> q{new queue_t()};
     std::deque<std::unique_ptr<cocls::future<T>>> futs;
-    std::deque<Rec<T>> recs;
+    std::deque<std::unique_ptr<cocls::future<T>>> stray;   // futures of pops the specification says are refused
+    std::deque<Rec> recs;
     std::map<const void *, int> id_of;   // future address -> pop id
+    std::vector<std::string> forms;
     std::string ret = "none";
-    int npush = 0, npop = 0, nthrow = 0;
+    std::string note;                    // replayer-side finding (reported in the projection)
+    int npush = 0, npop = 0, nthrow = 0, nref = 0, shift = 0;
     bool coro = false;
 
     J fut_state(std::size_t i) {
         J m = J::map();
         cocls::future<T> &f = *futs[i];
         std::string st = "pending";
-        int v = 0;
+        J v = J(0);
         if (f.ready()) {
             try {
-                if constexpr (std::is_void_v<T>) { f.value(); v = 0; }
-                else v = (int) f.value();
+                if constexpr (is_void) { f.value(); }
+                else v = item_json(f.value());
                 st = "val";
             } catch (const cocls::await_canceled_exception &) { st = "canceled"; }
             catch (const TestExc &) { st = "exc"; }
@@ -86,9 +152,9 @@ struct World {
         }
         if (coro) {
             // what the awaiting coroutine observed must agree with the future itself
-            Rec<T> &r = recs[i];
-            if (r.st != st || r.v != v || r.resumes > 1 || (st != "pending") != r.done) {
-                st = "mismatch:" + st + "/" + r.st + "/resumes=" + std::to_string(r.resumes);
+            Rec &r = recs[i];
+            if (r.st != st || r.v != v.dump() || r.resumes > 1 || (st != "pending") != r.done) {
+                st = "mismatch:" + st + "/" + r.st + "/" + r.v + "/resumes=" + std::to_string(r.resumes);
             }
         }
         m.set("st", st);
@@ -105,21 +171,21 @@ struct World {
         J items = J::list();
         J waiters = J::list();
         if (q) {
-            if constexpr (std::is_void_v<T>) {
+            if constexpr (is_void) {
                 for (std::size_t i = 0; i < q->_queue.size(); i++) items.push(0);
             } else {
-                auto copy = q->_queue;   // std::queue<int> copy
-                while (!copy.empty()) { items.push((int) copy.front()); copy.pop(); }
+                std::string first;
+                each(q->_queue, [&](const T &x) { if (items.size() == 0) first = item_json(x).dump(); items.push(item_json(x)); });
+                // the container's own observers must agree with its content
+                if (q->_queue.size() != items.size() || q->_queue.empty() != (items.size() == 0)) m.set("container_mismatch", true);
+                if (items.size() && item_json(q->_queue.front()).dump() != first) m.set("front_mismatch", true);
             }
-            // the parked promises: identify each by the future it points to
-            std::size_t n = q->_awaiters.size();
-            for (std::size_t i = 0; i < n; i++) {
-                cocls::promise<T> p = std::move(q->_awaiters.front());
-                q->_awaiters.pop();
+            // the parked promises: each is identified by the future it points to
+            each(q->_awaiters, [&](const cocls::promise<T> &p) {
                 auto it = id_of.find(p.get_id());
                 waiters.push(it == id_of.end() ? -1 : it->second);
-                q->_awaiters.push(std::move(p));
-            }
+            });
+            if (q->_awaiters.size() != waiters.size() || q->_awaiters.empty() != (waiters.size() == 0)) m.set("container_mismatch", true);
             // public observers must agree with the probe
             if (q->size() != items.size() || q->empty() != (items.size() == 0)) m.set("size_mismatch", true);
         }
@@ -130,35 +196,91 @@ struct World {
         J r = J::map();
         r.set("t1", ret);
         m.set("ret", r);
+        if (!note.empty()) m.set("note", note);
         return m;
     }
 
+    // one push() call carrying identity n through argument form `form`; arm: the first Item constructor the call
+    // runs throws.  Returns push()'s result.
+    bool push_form(const std::string &form, int n, bool arm) {
+        if constexpr (is_void) {
+            return q->push();
+        } else if constexpr (is_obj) {
+            if (form == "one") { Item::armed = arm; return q->push(n); }
+            if (form == "two") { Item::armed = arm; return q->push(n, n + 50); }
+            if (form == "zero") { Item::dflt = n; Item::armed = arm; return q->push(); }
+            if (form == "copy") {
+                Item x(n, n + 50);
+                Item::armed = arm;
+                struct Chk { Item &x; int n; std::string &note; ~Chk() { if (!x.is(n, n + 50, '2')) note = "push(lvalue) modified its argument"; } } chk{x, n, note};
+                return q->push(x);
+            }
+            if (form == "cref") { const Item x(n); Item::armed = arm; return q->push(x); }
+            if (form == "move") { Item x(n); Item::armed = arm; return q->push(std::move(x)); }
+            throw std::logic_error("unknown push form " + form);
+        } else {
+            if (form == "one") return q->push(int(n));
+            if (form == "copy") { int x = n; bool r = q->push(x); if (x != n) note = "push(lvalue) modified its argument"; return r; }
+            if (form == "cref") { const int x = n; return q->push(x); }
+            if (form == "move") { int x = n; return q->push(std::move(x)); }
+            throw std::logic_error("push form not available for int: " + form);
+        }
+    }
+    const std::string &form_of(int n) const { return forms[(std::size_t) (n + shift) % forms.size()]; }
+
     void run(const Scenario &sc, Reporter &rep) {
         coro = sc.hdr.at("mode").as_str("poll") == "coro";
+        shift = (int) sc.hdr.at("shift").as_int(0);
+        for (auto &f : sc.hdr.at("forms").l) forms.push_back(f.s);
+        if (forms.empty()) forms.push_back(is_void || is_obj ? "zero" : "one");
+        if (is_void) forms.assign(1, "zero");
+        Item::armed = false;
         for (std::size_t k = 0; k < sc.steps.size(); k++) {
             const Step &st = sc.steps[k];
             if (st.name == "PushCS") {
                 npush++;
-                bool r;
-                if constexpr (std::is_void_v<T>) r = q->push();
-                else r = q->push(npush);
-                ret = r ? "true" : "false";
+                try {
+                    bool r = push_form(form_of(npush), npush, false);
+                    ret = r ? "true" : "false";
+                } catch (const std::runtime_error &) { ret = "refused"; }
+            } else if (st.name == "PushRefused") {
+                // the specification says the item slot is occupied: the call must fail and change nothing
+                nref++;
+                try {
+                    (void) push_form(form_of(nref), 800 + nref, false);
+                    ret = "accepted";
+                } catch (const std::runtime_error &) { ret = "refused"; }
             } else if (st.name == "PushThrow") {
-                if constexpr (std::is_same_v<T, Item>) {
-                    // the failing construction alternates between the emplace form (the constructor from the argument throws)
-                    // and a ready-made item passed as an lvalue (its copy constructor throws)
+                if constexpr (is_obj) {
+                    // the failing construction rotates over the argument forms as well (the constructor from the
+                    // arguments, the default constructor, the copy / move constructor of a ready-made item)
+                    nthrow++;
                     try {
-                        if (nthrow++ % 2 == 0) (void) q->push(-1);
-                        else { Item it(77); it.copy_throws = true; (void) q->push(it); }
+                        (void) push_form(form_of(nthrow), 900 + nthrow, true);
                         ret = "nothrow";
-                    } catch (const ItemThrow &) { ret = "threw"; }
+                    } catch (const CtorThrow &) { ret = "threw"; }
+                    catch (const std::runtime_error &) { ret = "refused"; }
+                    Item::armed = false;
                 } else { rep.error(k, "PushThrow needs the throwing item type"); break; }
             } else if (st.name == "PopCS") {
                 npop++;
-                futs.emplace_back(new cocls::future<T>(q->pop()));
+                try {
+                    futs.emplace_back(new cocls::future<T>(q->pop()));
+                } catch (const std::runtime_error &) {
+                    rep.diverge(k, "pop() failed with runtime_error where the specification lets it proceed");
+                    break;
+                }
                 id_of[futs.back().get()] = npop;
                 recs.emplace_back();
                 if (coro) consumer<T>(*futs.back(), recs.back()).detach();
+            } else if (st.name == "PopRefused") {
+                // the specification says the waiter slot is occupied: the call must fail, no future comes into being
+                // and the parked pop is untouched.  (A future that does come into being is kept until the queue is gone.)
+                nref++;
+                try {
+                    stray.emplace_back(new cocls::future<T>(q->pop()));
+                    ret = "accepted";
+                } catch (const std::runtime_error &) { ret = "refused"; }
             } else if (st.name == "UnblockCS") {
                 bool r = q->unblock_pop(std::make_exception_ptr(TestExc()));
                 ret = r ? "true" : "false";
@@ -176,13 +298,36 @@ struct World {
             if (!futs[i]->ready()) { rep.diverge(sc.steps.size() - 1, "future still pending after queue destruction"); break; }
             if (coro && !recs[i].done) { rep.diverge(sc.steps.size() - 1, "consumer coroutine never resumed"); break; }
         }
+        for (auto &f : stray) if (!f->ready()) (void) f.release();   // a pending future cannot be destroyed legally (the scenario has diverged)
     }
 };
 
+template <typename T, template <typename> class Q, template <typename> class CQ>
+static void run_lock(const Scenario &sc, Reporter &rep) {
+    if (sc.hdr.at("lock").as_str("mutex") == "none") { World<T, Q, CQ, prim::no_lock> w; w.run(sc, rep); }
+    else { World<T, Q, CQ, std::mutex> w; w.run(sc, rep); }
+}
+
+template <typename T>
+static void run_kind(const Scenario &sc, Reporter &rep) {
+    bool si = sc.hdr.at("si").as_bool(false), sw = sc.hdr.at("sw").as_bool(false);
+    if constexpr (std::is_void_v<T>) {
+        // single_item_queue<void> does not exist (std::optional<void>)
+        if (si) { rep.error(0, "queue<void> has no single-slot item container"); return; }
+        if (sw) run_lock<T, prim::std_queue, prim::single_item_queue>(sc, rep);
+        else run_lock<T, prim::std_queue, prim::std_queue>(sc, rep);
+    } else {
+        if (si && sw) run_lock<T, prim::single_item_queue, prim::single_item_queue>(sc, rep);
+        else if (si) run_lock<T, prim::single_item_queue, prim::std_queue>(sc, rep);
+        else if (sw) run_lock<T, prim::std_queue, prim::single_item_queue>(sc, rep);
+        else run_lock<T, prim::std_queue, prim::std_queue>(sc, rep);
+    }
+}
+
 int main() {
     return replay_main(std::cin, [](const Scenario &sc, Reporter &rep) {
-        if (sc.hdr.at("void").as_bool()) { World<void> w; w.run(sc, rep); }
-        else if (sc.hdr.at("item").as_bool(false)) { World<Item> w; w.run(sc, rep); }
-        else { World<int> w; w.run(sc, rep); }
+        if (sc.hdr.at("void").as_bool()) run_kind<void>(sc, rep);
+        else if (sc.hdr.at("item").as_bool(false)) run_kind<Item>(sc, rep);
+        else run_kind<int>(sc, rep);
     });
 }
